@@ -59,6 +59,9 @@ def reference(order, length, seed):
     return bits, st, warned
 
 
+_RAW_STATE = {}      # id of the last raw state object returned by PRBS (resumption hands it back unconverted)
+
+
 def _call(order, length, seed):
     from opticomlib.devices import PRBS
     with warnings.catch_warnings(record=True) as w:
@@ -69,6 +72,7 @@ def _call(order, length, seed):
     # the container's own contract (1-D uint8 of the requested length) is part of what "emits the sequence" means: a
     # (1,1)-shaped one-bit result cannot be concatenated with the next chunk
     shape_tag = "" if data.ndim == 1 else f"|shape={list(data.shape)}"
+    _RAW_STATE["last"] = st
     return [int(b) for b in data.ravel()], int(st), warned, type(out).__name__, str(data.dtype) + shape_tag
 
 
@@ -131,13 +135,15 @@ def run_impl(case):
             first = True
             for part in case["split"]:
                 with time_limit(120):
-                    b, s, w, _, _ = _call(case["order"], part, s)
+                    b, s_int, w, _, _ = _call(case["order"], part, s)
+                # resume with the state object exactly as PRBS returned it (a numpy integer), every other time as a Python int
+                s = _RAW_STATE["last"] if (len(acc) + part) % 2 == 0 else s_int
                 if not first and w:
                     res["resume_warned"] = True
                 first = False
                 acc += b
             res["split_bits"] = "".join(map(str, acc))
-            res["split_state"] = s
+            res["split_state"] = int(s)
     except Timeout as e:
         res.update(status="timeout", detail=str(e))
     except Exception as e:  # noqa
